@@ -9,7 +9,8 @@ case = {"kind": "s3hist", "bands": [[max_compressed_size or None, [n, d]], ..], 
                        the payload) or absent (recordings saved straight on the cassette), "outcomes": per save
                        "return" / "raise" / "interrupt" (recorder only)}, ..],
         "schedule": [cassette index per save, in process order]}
-observation per cassette: per save {"ratio": [n, d], "size": compressed size, "kept": bool, "draws": [[n, d], ..] or None}."""
+observation per cassette: per save {"ratio": [n, d], "size": the size the calculator was given, "stored_size": byte length of
+the object a reference cassette without calculator stores for the same recording, "kept": bool, "draws": [[n, d], ..] or None}."""
 import os
 import random
 from fractions import Fraction
@@ -36,7 +37,9 @@ class Tap(object):
         return getattr(self._inner, name)
 
 
-def payload(length, pos, twin):
+def payload(length, pos, twin, kind="random"):
+    if kind == "repetitive":          # compresses to a few dozen bytes whatever its length (encoded size >> stored size)
+        return ("%d:" % pos + ("cd" if twin else "ab") * length)[:length]
     src = random.Random(7919 * pos + (104729 if twin else 0) + length)
     return "".join(src.choice("0123456789abcdef") for _ in range(length))
 
@@ -76,11 +79,28 @@ def make_operation(recorder, twin, seen_ids):
     return Operation
 
 
+def stored_size(ref, rec_id):
+    """byte length of the object the reference cassette (no sampling) stores for the recording this save was about"""
+    cas, handed = ref
+    mine = [r for r in handed if r.id == rec_id]
+    del handed[:]
+    if len(mine) != 1:
+        return None
+    try:
+        cas.save_recording(mine[0])
+        key = cas.FULL_KEY.format(key_prefix=cas.key_prefix, id=rec_id)
+        return len(fake_s3.store(cas.bucket).data[key][0])
+    except Exception:
+        return None
+
+
 def run(case):
     s3c = fake_s3.install()
     _n[0] += 1
     base = "c17h%d_%d" % (os.getpid(), _n[0])       # never reuse a bucket name: the fake stores are global
     live = {}
+    refs = {}
+    pk = case.get("payload_kind", "random")
     out = [[] for _ in case["cassettes"]]
     done = [0] * len(case["cassettes"])
 
@@ -91,6 +111,16 @@ def run(case):
             log = []
             cas = s3c.S3TapeCassette(bucket, key_prefix="k%d" % i, read_only=False,
                                      sampling_calculator=make_calculator(case["bands"], log))
+            # every recording that reaches this cassette is also stored, unsampled, by a reference cassette without a
+            # calculator (other bucket): the byte length of that object is the size the recording has in storage
+            handed = []
+            real_save = cas.save_recording
+
+            def save_and_note(recording, real_save=real_save, handed=handed):
+                handed.append(recording)
+                return real_save(recording)
+            cas.save_recording = save_and_note
+            refs[i] = (s3c.S3TapeCassette("%s_ref%d" % (base, i), key_prefix="k%d" % i, read_only=False), handed)
             inner = getattr(cas, "_random", None)
             tap = None
             if inner is not None and hasattr(inner, "random"):
@@ -118,13 +148,13 @@ def run(case):
         n_calc, n_draws = len(log), (len(tap.log) if tap else 0)
         if op_cls is None:
             rec = cas.create_new_recording("OpTwin" if spec.get("twin") else "Op")
-            rec.set_data("k", payload(case["master"][pos], pos, spec.get("twin")))
+            rec.set_data("k", payload(case["master"][pos], pos, spec.get("twin"), pk))
             cas.save_recording(rec)
             rec_id = rec.id
         else:
             outcome = (spec.get("outcomes") or ["return"])[pos % len(spec.get("outcomes") or ["return"])]
             try:
-                op_cls().execute(payload(case["master"][pos], pos, spec.get("twin")), outcome)
+                op_cls().execute(payload(case["master"][pos], pos, spec.get("twin"), pk), outcome)
             except (OperationFailed, OperationInterrupted):
                 pass
             rec_id = seen_ids[-1]
@@ -135,6 +165,7 @@ def run(case):
             kept = False
         calls = log[n_calc:]
         out[i].append({"ratio": calls[0][0] if len(calls) == 1 else None, "size": calls[0][1] if calls else None,
+                       "stored_size": stored_size(refs[i], rec_id),
                        "calc_calls": len(calls), "kept": kept,
                        "draws": None if tap is None else
                        [[Fraction(d).numerator, Fraction(d).denominator] for d in tap.log[n_draws:]]})
